@@ -430,8 +430,11 @@ func (oe *outEval) safeStructContent(v ssa.Value, b *ssa.BasicBlock, fr *oframe)
 }
 
 type outEval struct {
-	p        *Program
-	s        *Summarizer
+	p *Program
+	s *Summarizer
+	// Fidelity: when set, every path of a loop-free buffer helper that cuts bytes off a term is checked for
+	// "what is cut off is what was tested, and is written back in its encoded form" (see cutFidelity)
+	Fidelity *cutFidelity
 	Named    map[string]string // name -> regular expression (full match) of a named language
 	Problems []string
 	active   map[*ssa.Function]int
